@@ -130,8 +130,10 @@ PROPS = {
                                  SrcSet=FS3, NewPageSet=NP, PbRowSet=PR, PlaceSet=PL3, FontSet={1, 4, 6, 9}, SizeSet={6, 9, 12, 18, 24},
                                  PbHdrSet=NP, DivSet=DIVX, DupSet=NP), simulate=900)],
             thorough=[dict(consts=C(NSet={4}, Heights={1, 2, 3}, NrowSet={3, 4, 6}, Strategies=S3, LevelSet={1, 2},
+                                    HdrSet={"none", "default", "explicit"}, FootSet={"none", "table"}, NewPageSet=NP, PbRowSet=PR, PlaceSet={"all"})),
+                      dict(consts=C(NSet={4}, Heights={1, 2}, NrowSet={3, 4, 6}, Strategies={"pageby"}, LevelSet={1},
                                     HdrSet={"none", "default", "explicit"}, FootSet={"none", "table"}, NewPageSet=NP, PbRowSet=PR, PlaceSet={"all"},
-                                    DivSet={"none", "resume"})),
+                                    DivSet={"resume", "second"})),
                       dict(consts=C(NSet={0, 1, 7, 12, 20, 35, 60}, Heights={1, 2, 3, 4, 5, 6}, NrowSet={1, 2, 5, 8, 13, 21, 34, 50}, Strategies=ALL_STRAT,
                                     LevelSet={1, 2, 3}, HdrSet={"none", "default", "explicit", "explicit2"}, FootSet=FS3, SrcSet=FS3,
                                     NewPageSet=NP, PbRowSet=PR, PlaceSet=PL3, FontSet={1, 2, 3, 4, 5, 6, 7, 8, 9, 10},
@@ -169,7 +171,7 @@ PROPS = {
         model=dict(quick=C(NSet={0, 4}, Heights={1}, NrowSet={3, 4}, Strategies={"pageby", "subline", "subpb"}, LevelSet={1, 2},
                            HdrSet={"none", "explicit"}, NewPageSet=NP, PbRowSet=PR, DivSet={"none", "second", "outer"}),
                    thorough=C(NSet={0, 3, 5}, Heights={1}, NrowSet={3, 4, 6}, Strategies={"pageby", "subline", "subpb"}, LevelSet={1, 2},
-                              HdrSet={"none", "explicit"}, NewPageSet=NP, PbRowSet=PR, DivSet=DIV3, PbHdrSet=NP),
+                              HdrSet={"none", "explicit"}, NewPageSet=NP, PbRowSet=PR, DivSet={"none", "second", "outer"}, PbHdrSet=NP),
                    inv=["M_C05_Heads", "M_C05_NotStranded", "M_C05_NoHeadsWhenColumn", "M_C05_Subline", "M_C05_DividerKeepsRow"]),
         gen=dict(
             quick=[dict(consts=C(NSet={1, 4}, Heights={1}, NrowSet={3, 5}, Strategies={"pageby", "subline", "subpb"}, LevelSet={1, 2},
